@@ -80,6 +80,29 @@ func runSolver(sd solverDef, file string, timeoutS int) solverAnswer {
 // Stage B: the full query; E-matching only. A sat answer of stage A that
 // stage B cannot refute is reported as a failed obligation with A's model.
 func solveOne(e *Enc, o *Obligation, idx int, opts solveOpts) {
+	if o.Raw != "" {
+		file := filepath.Join(opts.WorkDir, fmt.Sprintf("%s_%04d.smt2", sanitize(e.unit), idx))
+		os.WriteFile(file, []byte(o.Raw), 0o644)
+		o.File = file
+		sds := []solverDef{solvers[0], {Name: "cvc5-1.0.3", Args: func(f string, t int) []string {
+			return []string{"cvc5", "--lang=smt2", "--strings-exp", fmt.Sprintf("--tlimit=%d", t*1000), f}
+		}}, solvers[2]}
+		a, _ := race(sds, file, opts.TimeoutS)
+		o.Result, o.Solver, o.Seconds, o.Output = a.result, a.solver, a.seconds, a.out
+		if opts.All && a.result == "unsat" {
+			for _, sd := range sds {
+				if sd.Name == a.solver {
+					continue
+				}
+				b := runSolver(sd, file, opts.TimeoutS)
+				o.PerSolver = append(o.PerSolver, fmt.Sprintf("%s=%s", sd.Name, b.result))
+				if b.result == "sat" {
+					o.Result = "disagree"
+				}
+			}
+		}
+		return
+	}
 	goalNeg := and(o.Guard, not(o.Goal))
 	if o.IsCover {
 		goalNeg = o.Guard
